@@ -1428,7 +1428,10 @@ const char* rtosc_skip_next_printed_arg(const char* src, int* skipped,
                     rtosc_skip_next_printed_arg(llhssrc,
                                                 &llhsskipped, &llhstype,
                                                 NULL, 0, inside_bundle);
-                    if(types_match(llhstype, lhstype))
+                    // (only numeric values are scanned here, there is no
+                    //  buffer for strings, and lhsarg has only been scanned
+                    //  if it is numeric)
+                    if(numeric_range && types_match(llhstype, lhstype))
                     {
                         rtosc_scan_arg_val(llhssrc, &llhsarg, 1,
                                            NULL, &zero, 0, 0);
